@@ -311,6 +311,7 @@ BUILTIN_ENUMS = {
     'Ordering': {'Less': -1, 'Equal': 0, 'Greater': 1},
     'ControlFlow': {'Continue': 0, 'Break': 1},
     'Bound': {'Included': 0, 'Excluded': 1, 'Unbounded': 2},
+    'FpCategory': {'Nan': 0, 'Infinite': 1, 'Zero': 2, 'Subnormal': 3, 'Normal': 4},
     'Entry': {'Occupied': 0, 'Vacant': 1},
     'Cow': {'Borrowed': 0, 'Owned': 1},
     'ErrorKind': {'NotFound': 0, 'UnexpectedEof': 1, 'Other': 2, 'InvalidInput': 3, 'InvalidData': 4, 'PermissionDenied': 5},
